@@ -79,6 +79,15 @@ class ByteInterval(Node):
         def update(self, *iterables: typing.Iterable[ByteBlock]) -> None:
             node_ir = self._node.ir
             new_items = set().union(*iterables) - self._data
+            # Refuse the whole batch before any block is moved: blocks are
+            # re-parented one by one below, and an element that cannot be
+            # a member would otherwise leave the ones before it half-moved.
+            for v in new_items:
+                if not isinstance(v, ByteBlock):
+                    raise TypeError(
+                        "ByteInterval.blocks can only hold ByteBlocks, "
+                        "not %s" % type(v).__name__
+                    )
             for v in new_items:
                 if v._byte_interval is not None:
                     v._byte_interval.blocks.discard(v)
